@@ -743,6 +743,7 @@ func (database *ChainDatabase) GetCandidatesPage(index int, size int) ([]common.
 	}
 }
 
+// GetAllCandidates returns the candidates of the stable blocks. They are saved when a block becomes stable
 func (database *ChainDatabase) GetAllCandidates() ([]common.Address, error) {
 	c, err := database.Context.GetCandidates()
 	if err != nil {
@@ -751,6 +752,38 @@ func (database *ChainDatabase) GetAllCandidates() ([]common.Address, error) {
 	addresses := make([]common.Address, 0, len(c))
 	for i := 0; i < len(c); i++ {
 		addresses = append(addresses, c[i].Address)
+	}
+	return addresses, nil
+}
+
+// GetAllCandidatesByBlock returns the address of every account which has a candidate profile in the state of the specific block.
+// They are the candidates of the stable blocks and the candidates which are changed by the unstable blocks on the fork of the
+// specific block. So the result does not depend on how many of these blocks are stable on this node already
+func (database *ChainDatabase) GetAllCandidatesByBlock(blockHash common.Hash) ([]common.Address, error) {
+	database.RW.RLock()
+	defer database.RW.RUnlock()
+
+	addresses, err := database.GetAllCandidates()
+	if err != nil {
+		return nil, err
+	}
+	exist := make(map[common.Address]struct{}, len(addresses))
+	for _, address := range addresses {
+		exist[address] = struct{}{}
+	}
+
+	// the unstable blocks from the stable block to the specific block. They will save the same candidates when they become stable
+	if cItem := database.UnConfirmBlocks[blockHash]; cItem != nil {
+		blocks := cItem.CollectToParent(database.LastConfirm)
+		for index := len(blocks) - 1; index >= 0; index-- {
+			accounts := blocks[index].AccountTrieDB.Collect(blocks[index].Block.Height())
+			for _, candidate := range blocks[index].filterCandidates(accounts) {
+				if _, ok := exist[candidate.Address]; !ok {
+					addresses = append(addresses, candidate.Address)
+					exist[candidate.Address] = struct{}{}
+				}
+			}
+		}
 	}
 	return addresses, nil
 }
